@@ -198,7 +198,7 @@ theorem connbind_owner_only (c : Cfg) (s : State) (k : Key) (sz tid : Nat) (cr :
 def cfg0 : Cfg :=
   { permT := 300 * sec, chanT := 600 * sec, lifeT := 600 * sec, maxLife := 3600 * sec, rtpMTU := 1600
     inMTU := 1600, bindT := 30 * sec, resvT := 30 * sec, strict := false, hasAuth := true, hasQuota := false
-    relay4 := ⟨false, 1⟩, relay6 := ⟨true, 1⟩, lis := [⟨false, 1, false, []⟩] }
+    relay4 := ⟨false, 1⟩, relay6 := ⟨true, 1⟩, lis := [⟨false, 1, false, [], []⟩] }
 def k0 : Key := ⟨0, ⟨⟨false, 7⟩, 4000⟩⟩
 def env0 : AllocEnv := ⟨some 50001, true, none, ""⟩
 example : (step cfg0 init (.msg k0 100 (.allocate 1 ⟨true, true, false, true, true, true, true, "alice"⟩ .absent (.val 17) false
